@@ -40,6 +40,18 @@ def gen_edges(rng):
     return edges
 
 
+def gen_nested(rng):
+    wide = gen_edges(rng)
+    lo, hi = wide[0], wide[-1]
+    a = lo + (hi - lo) * rng.uniform(0.2, 0.6)
+    n = rng.choice([2, 3, 6])
+    d = (hi - a) * rng.uniform(0.05, 0.3) / n
+    inner = [round(a + i * d, 6) for i in range(n + 1)]
+    out = [wide, inner]
+    rng.shuffle(out)
+    return out
+
+
 def gen_bad_edges(rng):
     kind = rng.choice(["short", "nonmono", "2d", "equal"])
     if kind == "short":
@@ -161,6 +173,8 @@ class InstrumentMachine(Machine):
         if a in ("min_bins_per_pixel", "min_bins_per_window"):
             return rng.choice([1, 2, 3, 5, 10, 25])
         if a == "wavelength_to_pixel":
+            if rng.random() < 0.25:
+                return gen_nested(rng)
             return [gen_edges(rng) for _ in range(rng.randint(1, 3))]
         if a == "filters":
             n = len(cfg["pool"])
@@ -205,6 +219,7 @@ class InstrumentMachine(Machine):
         c.warm = set()
         c.stale_risk = set()
         c.handed = {}
+        c.held = []
         env.stats.add("kinds", c.kind)
         return c
 
@@ -538,6 +553,12 @@ class InstrumentMachine(Machine):
             if abs(total - whole) > 1e-9 * abs(whole) + 1e-11 * scale * (edges[-1] - edges[0]):
                 raise Violation("calibrate-conserves", c.kind, "sum over pixels %r, integral over the array %r" % (total, whole))
             env.digest.add(float(total))
+        # results handed out earlier belong to the caller: a later calibration must not rewrite them
+        for old_res, old_copy in c.held:
+            for a, b in zip(old_res, old_copy):
+                if not np.array_equal(np.asarray(a), b):
+                    raise Violation("calibrate-result-overwritten", c.kind, "an array returned by an earlier calibrate() call was modified by a later one")
+        c.held = (c.held + [(res, [np.array(a, dtype=float, copy=True) for a in res])])[-3:]
         c.warm.update(["min_wavelength", "max_wavelength", "spectral_bins"])
         if c.stale_risk & {"min_wavelength", "max_wavelength", "spectral_bins"}:
             env.nontrivial = True
